@@ -1,6 +1,7 @@
 import TucanProofs.Lemmas.Totality
 import TucanProofs.Lemmas.RoundTripPipeline
 import TucanProofs.Examples
+import TucanProofs.Lemmas.FilesMol
 /-!
 # C15 — the pipeline completes for every non-empty molecule regardless of size or shape  (PARTIAL)
 
@@ -60,5 +61,12 @@ example : exGraph.WF ∧ exGraph.Simple ∧ exGraph.labels ≠ [] ∧
   · exact ⟨exAtomO, rfl, rfl, rfl⟩
   · exact ⟨exAtomC13, rfl, rfl, rfl⟩
   · exact ⟨exAtomC, rfl, rfl, rfl⟩
+
+/-- **Every conformant molfile with at least one atom gets a string**: the model pipeline returns on the graph
+either reader returns for it, for every oracle that returns permutations. -/
+theorem C15_molfile_pipeline_total (order : Graph → List Nat) (hperm : ∀ r : Graph, r.WF → (order r).Perm r.labels)
+    (g : Graph) (m : Mol) (c : List (Str × Str × Str)) (hc : c.length = m.atoms.length)
+    (hm : m.Conformant) (hne : m.atoms ≠ []) (hg : IsGraphOf g m c) : ∃ s, tucanOf order g = .ok s :=
+  isGraphOf_pipeline_total order hperm g m c hc hm hne hg
 
 end Tucan
